@@ -471,8 +471,8 @@ type symEnv struct {
 	namedResults [][]*ast.Ident
 	// zeroTrip: every loop is taken to run zero times (the evaluation is for inputs that make it so)
 	zeroTrip bool
-	onLoop     func(st *symState, loop ast.Stmt)
-	onAssign   func(st *symState, lhs ast.Expr, rhs ast.Expr)
+	onLoop   func(st *symState, loop ast.Stmt)
+	onAssign func(st *symState, lhs ast.Expr, rhs ast.Expr)
 	// loopBody: the interpreted block is one iteration of a loop (continue/break end the path)
 	loopBody bool
 	// inlinable: calls of private helpers that are interpreted by stepping into their bodies
